@@ -244,7 +244,8 @@ def _supp(tag, suppress):
 def _only_promotion(o):
     """signature of C14-doctitle-promotion: exactly one top-level section, everything after it are warning nodes, at least
     one of which the list suppresses; AND without the doctitle/subtitle transforms the pair satisfies the relation"""
-    top = [k for k in o["top"] if k not in ("comment", "target", "substitution_definition", "pending", "meta", "docinfo", "title-warn")]
+    # (footnotes and their transition are moved to the end of the document only AFTER docutils' title promotion has run)
+    top = [k for k in o["top"] if k not in ("comment", "target", "substitution_definition", "pending", "meta", "docinfo", "title-warn", "footnote", "transition")]
     title_warn = "title-warn" in o["top"]
     lead = 0
     while lead < len(top) and top[lead] == "warn":
